@@ -144,7 +144,7 @@ func randTree(rng *rand.Rand, depth, arity int) *oracle.Expr {
 func runC10(r *vf.Run) {
 	r.Rule("one evaluation = one query tree formatted with QueryToString, parsed back with ParseQuery and compared in normal form (flatten same-operator nesting, unwrap single-operand AND/OR) with the original, " +
 		"plus the group-by list, plus the fixed-point check of the re-formatted text, plus an independent reading of the text by the reference grammar; " +
-		"exhaustive part: all trees up to the stated depth with arity <= 2 over the stated leaf alphabet (both operators, NOT anywhere, single-operand nodes); " +
+		"chains: every nesting depth 1..300 (thorough 3000) x {AND, OR, alternating, with NOT interleaved, NOT only} x {left-, right-nested}; exhaustive part: all trees up to the stated depth with arity <= 2 over the stated leaf alphabet (both operators, NOT anywhere, single-operand nodes); " +
 		"distinct_nontrivial = distinct (normal form, group-by) pairs among trees with at least one operator")
 	r.Assume("column names are identifiers of the query language", "a comparison carries either a value or a placeholder, not both")
 	leaves4 := []*oracle.Expr{oracle.Eq("a", "1"), oracle.Eq("B9_z", `x"y`), oracle.PhEq("c", 1), oracle.Eq("d", "")}
@@ -243,6 +243,61 @@ func runC10(r *vf.Run) {
 			r.Max("group_by_length", int64(len(gb)))
 			if id == "rnd/chunk0000" && i == 7 {
 				r.Sample("random-tree", map[string]any{"tree": t.String(), "group_by": gb, "text": head(queryparser.QueryToString(&pb.Query{Expr: t.ToProto(), GroupBy: gb}), 600)})
+			}
+		}
+	})
+	// deep chains: one path of d nested operators (random trees stop at depth 10), left- and right-nested, one operator,
+	// alternating operators, NOT interleaved, NOT only; every depth up to the bound
+	maxChain := r.Pick(300, 3000)
+	var cids []string
+	for d := 1; d <= maxChain; d++ {
+		cids = append(cids, fmt.Sprintf("chain/d%04d", d))
+	}
+	chainFamilies := []string{"and", "or", "alt", "alt-not", "not", "and-not"}
+	r.ForEach(cids, 16, func(id string) {
+		var d int
+		fmt.Sscanf(id, "chain/d%d", &d)
+		for _, fam := range chainFamilies {
+			for _, left := range []bool{false, true} {
+				tid := fmt.Sprintf("%s/%s/left=%v", id, fam, left)
+				if !r.Want(tid) {
+					continue
+				}
+				leaf := func(i int) *oracle.Expr {
+					if i%7 == 3 {
+						return oracle.PhEq("c", int32(1+i%5))
+					}
+					return oracle.Eq(gen.IdentCols[i%len(gen.IdentCols)], fmt.Sprint(i))
+				}
+				t := leaf(0)
+				for i := 1; i <= d; i++ {
+					op := byte('&')
+					switch fam {
+					case "or":
+						op = '|'
+					case "alt", "alt-not":
+						op = []byte{'&', '|'}[i%2]
+					}
+					switch {
+					case fam == "not" || ((fam == "alt-not" || fam == "and-not") && i%2 == 0):
+						t = oracle.Not(t)
+					case left:
+						t = &oracle.Expr{Op: op, Kids: []*oracle.Expr{t, leaf(i)}}
+					default:
+						t = &oracle.Expr{Op: op, Kids: []*oracle.Expr{leaf(i), t}}
+					}
+				}
+				var gb []string
+				if d%3 != 0 {
+					gb = []string{"a", "Zz"}[:1+d%2]
+				}
+				r.Eval(1)
+				if p := roundTrip(t, gb); p != "" {
+					r.Violation(tid, "roundtrip", map[string]any{"family": fam, "left_nested": left, "nested_operators": d, "group_by": fmt.Sprintf("%q", gb), "problem": head(p, 1500)})
+				}
+				r.Distinct(tid)
+				r.Max("chain_depth", int64(d))
+				r.Cover("chain_families", fam)
 			}
 		}
 	})
